@@ -42,6 +42,10 @@
 (* a legacy text (atoms with expr = FALSE) are outside the quantifier of   *)
 (* the property ("every workflow expressible in the legacy format").       *)
 (*                                                                         *)
+(* Module DosiniCatalogue is generated into spec/gen/ by every run of the  *)
+(* check (TLC is started with -DTLA-Library=spec/gen); to parse by hand:   *)
+(*   java -DTLA-Library=gen -cp <tla2tools.jar> tla2sany.SANY Dosini.tla   *)
+(*                                                                         *)
 (* The spec is the oracle of harness/checks/c19.py: every instance TLC     *)
 (* enumerates is emitted as JSON together with the expected resolved view, *)
 (* rendered to a real FlowIR instance, dumped and loaded with the real     *)
@@ -427,6 +431,5 @@ EmitCase ==
                        status |-> inst.status, output |-> inst.output,
                        expected |-> [explicit |-> [c \in CompNames |-> ExplicitExpected(inst, c)],
                                      isRepeat |-> [c \in CompNames |-> IsRepeat(ExplicitOpts(inst, c))],
-                                     vars |-> [c \in CompNames |-> {[name |-> x.name, scope |-> x.val.a, src |-> x.val.src, n |-> x.val.n] : x \in ExpectedVars(inst, c)}],
-                                     keys |-> {[key |-> l.key, section |-> l.section] : l \in {m \in files.lines : m.file = StageFile(1) /\ m.section = "c"}}]]))
+                                     vars |-> [c \in CompNames |-> {[name |-> x.name, scope |-> x.val.a, src |-> x.val.src, n |-> x.val.n] : x \in ExpectedVars(inst, c)}]]]))
 =============================================================================
